@@ -240,6 +240,38 @@ def allPairs (rank : Nat) : List (Nat × Nat) :=
 def edgesOf (A : Table) (rank v : Nat) : List ((Nat × Nat) × Nat) :=
   (allPairs rank).filterMap fun p => (A.step2 v p).map fun t => (p, t)
 
+/-! ## certificates of non-reducedness (Tits: braid moves and deletion of squares) -/
+
+/-- the alternating word `a b a b …` of length `m` (starting with `a`) -/
+def altFrom {B : Type} (a b : B) : Nat → List B
+  | 0 => []
+  | m + 1 => a :: altFrom b a m
+
+/-- one step of a non-reducedness certificate -/
+inductive CertStep
+  | braid (pos : Nat)    -- replace the alternating subword of length `m(a,b)` starting at `pos`
+  | square (pos : Nat)   -- delete the square at `pos`, `pos + 1`
+
+/-- apply one certificate step; `none` if it does not apply (`M a b = 0` is an infinite label: no braid move) -/
+def applyStep {B : Type} [DecidableEq B] (M : B → B → Nat) (w : List B) : CertStep → Option (List B)
+  | .square pos =>
+    match w.drop pos with
+    | a :: b :: rest => if a = b then some (w.take pos ++ rest) else none
+    | _ => none
+  | .braid pos =>
+    match w.drop pos with
+    | a :: b :: _ =>
+      let m := M a b
+      if (w.drop pos).take m = altFrom a b m ∧ m ≤ (w.drop pos).length then
+        some (w.take pos ++ altFrom b a m ++ w.drop (pos + m))
+      else none
+    | _ => none
+
+/-- run a certificate -/
+def checkCert {B : Type} [DecidableEq B] (M : B → B → Nat) : List B → List CertStep → Option (List B)
+  | w, [] => some w
+  | w, s :: ss => (applyStep M w s).bind fun w' => checkCert M w' ss
+
 /-- the block word of a list of 2-letter labels (what `enumerate_words` prints for the even automaton) -/
 def unblock (ps : List (Nat × Nat)) : List Nat := ps.flatMap fun p => [p.1, p.2]
 
